@@ -25,7 +25,7 @@ cp /verif/KNOWN_FINDINGS.txt /verif/properties.jsonl "$MT/root/"
 mkdir -p "$MT/root/harness" "$MT/root/evidence"
 (cd "$MT/h" && CARGO_TARGET_DIR="$MT/target" cargo build --offline --release --bin "$BIN" 2>&1 | grep -E "^error" -A 8 | head -30)
 [ -x "$MT/target/release/$BIN" ] || { echo "BUILD-FAILED"; exit 2; }
-case "$ID" in C01|C02|C03|C05)
+case "$ID" in C01|C02|C03|C05|C06|C07|C09|C10|C11|C13|C16)
   (cd "$MT/h" && CARGO_TARGET_DIR="$MT/target" cargo build --offline --profile devopt --bin "$BIN" 2>&1 | grep -E "^error" -A 8 | head -30)
   [ -x "$MT/target/devopt/$BIN" ] && export VERIF_DEVOPT_BIN="$MT/target/devopt/$BIN";;
 esac
